@@ -231,6 +231,23 @@ class Ctx:
     def finish(self):
         cov = self.cov
         cov.setdefault("trusted_base", TRUSTED_BASE)
+        # keep the evidence schema-valid whatever a plugin put under a reserved key
+        for k in ("evaluations", "distinct_nontrivial", "states", "transitions", "traces_validated_against_impl",
+                  "obligations", "discharged", "programs", "disagreements_checked"):
+            if k in cov and not (isinstance(cov[k], int) and not isinstance(cov[k], bool)):
+                cov[k + "_detail"] = cov.pop(k)
+        for k in ("rule", "checker_cmd", "explanation"):
+            if k in cov and not isinstance(cov[k], str):
+                cov[k] = json.dumps(cov[k], default=str)
+        if "samples" in cov and not isinstance(cov["samples"], list):
+            cov["samples"] = [cov["samples"]]
+        if "exhaustive" in cov and not isinstance(cov["exhaustive"], bool):
+            cov["exhaustive"] = bool(cov["exhaustive"])
+        if not isinstance(cov.get("trusted_base"), list):
+            cov["trusted_base"] = [str(cov.get("trusted_base"))]
+        cov["trusted_base"] = [str(x) for x in cov["trusted_base"]]
+        if "programs_detail" in cov and isinstance(cov["programs_detail"], dict) and isinstance(cov["programs_detail"].get("programs"), int):
+            cov["programs"] = cov["programs_detail"]["programs"]
         ev = {
             "property_id": self.pid, "tier": self.tier, "seed": self.seed, "level": self.level,
             "coverage": cov, "assumptions": self.assumptions, "wall_s": round(time.time() - self.t0, 2),
